@@ -18,6 +18,7 @@ import (
 	"strconv"
 	"strings"
 	"sync"
+	"syscall"
 	"time"
 )
 
@@ -48,14 +49,17 @@ type Result struct {
 
 // Ctx is handed to a check's Run function inside a worker.
 type Ctx struct {
-	Tier   string
-	Shard  int
-	NShard int
-	Seed   int64
-	mu     sync.Mutex
-	res    Result
-	viol   map[string]*Violation
-	dl     time.Time
+	Tier     string
+	Shard    int
+	NShard   int
+	Seed     int64
+	mu       sync.Mutex
+	res      Result
+	viol     map[string]*Violation
+	dl       time.Time     // wall-clock backstop (6x limit)
+	limit    time.Duration // CPU-time soft limit of this worker
+	expCalls int
+	expired  bool
 	// hang watchdog
 	beat     int64
 	curLabel string
@@ -180,7 +184,33 @@ func (c *Ctx) Violate(key, what string, rank int64, cs any) {
 
 // Deadline: soft internal deadline; checks that honour it stop enumerating,
 // call Cap, and the run is reported exhaustive:false (exit 0).
-func (c *Ctx) Expired() bool { return !c.dl.IsZero() && time.Now().After(c.dl) }
+//
+// The deadline is measured in CPU time of the worker process (user+sys), not wall-clock
+// time, so that a loaded machine does not cut an enumeration short; a wall-clock backstop
+// of 6x the limit guards against a worker that is starved of CPU.
+func (c *Ctx) Expired() bool {
+	if c.dl.IsZero() {
+		return false
+	}
+	c.expCalls++
+	if c.expCalls&63 != 1 && !c.expired {
+		return false
+	}
+	if c.expired {
+		return true
+	}
+	var ru syscall.Rusage
+	if syscall.Getrusage(syscall.RUSAGE_SELF, &ru) == nil {
+		cpu := time.Duration(ru.Utime.Nano() + ru.Stime.Nano())
+		if cpu > c.limit {
+			c.expired = true
+		}
+	}
+	if time.Now().After(c.dl) {
+		c.expired = true
+	}
+	return c.expired
+}
 
 // Spec describes one property check.
 type Spec struct {
@@ -277,7 +307,8 @@ func Main(s Spec) {
 		fmt.Sscanf(*shard, "%d/%d", &i, &n)
 		c := newCtx(*tier, i, n, seed)
 		if d, ok := s.SoftLimit[*tier]; ok {
-			c.dl = time.Now().Add(d)
+			c.limit = d
+			c.dl = time.Now().Add(6 * d)
 		}
 		done := make(chan struct{})
 		go c.watchdog(done)
